@@ -95,6 +95,11 @@ class DictProxy(dict):
     def copy(self) -> "DictProxy":
         return DictProxy(self.cfg, self.dict_field, self)
 
+    def __ior__(self, other: KeyValuePairs) -> "DictProxy":  # type: ignore[override,misc]
+        # dict.__ior__ would store keys and values without validation
+        self.update(other)
+        return self
+
     def __setitem__(self, key: Any, value: Any) -> None:
         key, value = self._validate(key, value)
         super().__setitem__(key, value)
